@@ -87,7 +87,8 @@ func c07Run(r *Run, start uint64, depth, shard int) {
 	long := make([]byte, 9000)
 
 	bfs := &BFS{
-		Scn: scn, MaxDepth: depth, ValidatePaths: shard == 0, RootShard: shard, RootShards: c07Shards,
+		SeqDepth: 3,
+		Scn:      scn, MaxDepth: depth, ValidatePaths: shard == 0, RootShard: shard, RootShards: c07Shards,
 		Init: func(r *Run, w *World, root *Node) {
 			root.Model, root.MKey = c07Model{}, "k=0"
 		},
